@@ -30,7 +30,7 @@ def sh(cmd, **kw):
 
 def run_check(p, env, tier="quick"):
     t0 = time.time()
-    r = sh("cd %s && ./check %s --tier %s" % (ROOT, p, tier), env=env)
+    r = sh("cd %s && ./check %s --tier %s" % (env.get("VERIF_COPY", ROOT), p, tier), env=env)
     clauses = sorted(set(re.findall(r"^VIOLATION property=\S+ replay=\S+ clause=(\S+)", r.stdout, flags=re.M)))
     if r.returncode == 2:
         clauses = ["MACHINERY: " + (r.stdout + r.stderr)[-300:]]
@@ -52,6 +52,10 @@ def main():
     scratch = tempfile.mkdtemp(prefix="sl_seed_%s_" % sid)
     wt = os.path.join(scratch, "wt")
     env = dict(os.environ, VERIF_SEED=seed, VERIF_OUT=os.path.join(scratch, "out"))
+    # the checks run from a private copy of /verif, so that editing /verif meanwhile cannot disturb them
+    vcopy = os.path.join(scratch, "verif")
+    sh("rsync -a --exclude .git --exclude replays --exclude evidence --exclude seeded --exclude keep --exclude __pycache__ %s/ %s/" % (ROOT, vcopy))
+    env["VERIF_COPY"] = vcopy
     try:
         if inplace:
             if sh("git -C /repo status --porcelain").stdout.strip():
